@@ -28,6 +28,7 @@ pub struct W {
     pub remove_many: u32,
     pub remove_all: u32,
     pub remove_old: u32,
+    pub tight_shrink: u32,
     pub entry: u32,
     pub rawmut: u32,
     pub raw: u32,
@@ -76,6 +77,7 @@ fn base_w() -> W {
         remove_many: 2,
         remove_all: 1,
         remove_old: 3,
+        tight_shrink: 2,
         entry: 10,
         rawmut: 8,
         raw: 3,
@@ -153,6 +155,7 @@ pub fn profile(prop: Prop, thorough: bool) -> Profile {
         C04 => {
             p.hash_modes = [4, 3, 2, 1];
             p.w.probe = 10;
+            p.w.tight_shrink = 8;
             p.w.shrink = 12;
             p.w.reserve = 10;
             p.w.churn = 5;
@@ -314,6 +317,7 @@ pub fn keysel() -> BoxedStrategy<KeySel> {
         2 => any::<u16>().prop_map(KeySel::InMain),
         2 => (0u32..4096).prop_map(KeySel::Any),
         1 => (0u32..4096).prop_map(KeySel::Absent),
+        3 => (0u8..20).prop_map(KeySel::NextMoved),
     ]
     .boxed()
 }
@@ -483,6 +487,7 @@ pub fn op_strategy(p: &Profile) -> BoxedStrategy<Op> {
     );
     add(w.remove_many, (slot(), 1u32..=many, any::<u16>()).prop_map(|(s, n, stride)| Op::RemoveMany { s, n, stride }).boxed());
     add(w.remove_all, slot().prop_map(|s| Op::RemoveAll { s }).boxed());
+    add(w.tight_shrink, slot().prop_map(|s| Op::TightShrink { s }).boxed());
     add(w.remove_old, (slot(), 0u8..5, prop_oneof![3 => Just(0u8), 2 => 1u8..12]).prop_map(|(s, how, keep)| Op::RemoveOld { s, how, keep }).boxed());
     add(w.entry, (slot(), keysel(), chain()).prop_map(|(s, k, chain)| Op::Entry { s, k, chain }).boxed());
     add(w.rawmut, (slot(), keysel(), rawhow(), chain()).prop_map(|(s, k, how, chain)| Op::RawEntryMut { s, k, how, chain }).boxed());
@@ -772,6 +777,13 @@ pub fn c14_case_strategy(thorough: bool) -> BoxedStrategy<Case> {
             }
             if split_a > 2 {
                 ops.push(Op::TriggerGrowth { s: 0 });
+            }
+            if split_a == 1 {
+                // park everything in the old table: reserve just beyond the free space
+                ops.push(Op::Reserve { s: 1, n: CapArg::AroundFree(1), follow: false });
+            }
+            if split_a == 2 && junk == 0 {
+                ops.push(Op::Reserve { s: 0, n: CapArg::AroundFree(1), follow: false });
             }
             // steering keys are fresh keys: remove them again (removals move nothing)
             ops.push(Op::RemoveFresh { s: 0 });
